@@ -174,6 +174,27 @@ def run_jump(i, extra):
     scn["faults"] = [{"kind": "clock-jump", "at": rng.choice([0.2, 0.7, 1.1, 1.6, 2.4, 3.5]),
                       "delta": rng.choice([-40.0, -7.5, -2.0, -0.5, 0.5, 2.0, 7.5, 40.0, 700.0])}
                      for _ in range(rng.choice([1, 1, 2]))]
+    if rng.random() < 0.3:
+        # a Map with MaxConcurrency batches (at top level, in a Parallel branch, in an outer Map) whose later batches
+        # are launched after the clock was stepped past the execution deadline
+        inner = {"Type": "Map", "ItemsPath": "$.items", "MaxConcurrency": rng.choice([1, 2]), "End": True,
+                 "ItemProcessor": {"StartAt": "W", "States": {"W": {"Type": "Wait", "Seconds": rng.choice([1, 2]), "End": True}}}}
+        place = rng.choice(["top", "parallel", "map"])
+        if place == "top":
+            d = {"StartAt": "M", "States": {"M": inner}}
+        elif place == "parallel":
+            d = {"StartAt": "P", "States": {"P": {"Type": "Parallel", "End": True, "Branches": [
+                {"StartAt": "M", "States": {"M": inner}},
+                {"StartAt": "T", "States": {"T": {"Type": "Task", "Resource": F + "slow", "End": True}}}]}}}
+        else:
+            d = {"StartAt": "O", "States": {"O": {"Type": "Map", "ItemsPath": "$.groups", "End": True, "ItemProcessor": {
+                "StartAt": "M", "States": {"M": inner}}}}}
+        scn = {"machines": {"jm": {"definition": d, "type": rng.choice(["STANDARD", "EXPRESS"])}},
+               "executions": [{"machine": "jm", "input": {"items": [1, 2, 3, 4], "groups": [{"items": [1, 2, 3]}, {"items": [4, 5]}]},
+                               "name": "j1", "at": 0.0}],
+               "script": {"slow": [{"noreply": True}]}, "functions": ["slow"], "config": cfg,
+               "faults": [{"kind": "clock-jump", "at": rng.choice([0.5, 1.5, 2.5, 3.5]), "delta": float(cfg["execution_ttl"] + 100)}]}
+        skipped = None
     r = check(scn, seed, None, skipped)
     r.setdefault("probes", {})["clock-jump:runs"] = 1
     return r
